@@ -1129,6 +1129,7 @@ type vProfile struct {
 	vramPressure bool // GPU sizes and mock VRAM chosen so that co-loading sometimes does not fit
 	lateLoad     int  // per mille of histories that are the "load succeeds for a requester who has left" scenario
 	pingCancel   int  // per mille of histories that are the "client leaves during the health check of a loaded runner" scenario
+	busyPingFail int  // per mille of histories that are the "health check of a BUSY runner fails" scenario
 }
 
 func contextWithCancel(w *vWorld) (context.Context, context.CancelFunc) {
@@ -1289,6 +1290,35 @@ func vGenHistory(r *kit.Rand, idx int, p vProfile) *vHistory {
 		h.Clients = [][]vAction{
 			{a, {Op: "sleep", SleepUs: kit.Pick(r, []int{100, 400})}, b, {Op: "sleep", SleepUs: kit.Pick(r, []int{50, 300})}, c},
 			{{Op: "sleep", SleepUs: kit.Pick(r, []int{500, 3000})}, d},
+		}
+		h.NReq = nextReq - 1
+		return h
+	}
+	if r.Intn(1000) < p.busyPingFail {
+		// A holds model 0's runner; B (and later C) ask for the same model with the same options while A is still
+		// at work, and the health check the scheduler makes for them fails once: the runner must be replaced, but not
+		// before A is done with it, and A's release must not be booked on the replacement. B keeps its runner
+		// longer than A and asks for keep_alive 0, so a reference that goes missing shows at once.
+		h.Profile = p.name + "/busy-ping-fail"
+		a := vAction{Op: "req", Req: nextReq, Model: 0, NumCtx: 8, NumGPU: -1, KeepAliveUs: kit.Pick(r, []int{0, 1000, 5000}), Hold: kit.Pick(r, []int{16, 32}), LoadMode: "ok"}
+		nextReq++
+		b := vAction{Op: "req", Req: nextReq, Model: 0, NumCtx: 8, NumGPU: -1, KeepAliveUs: 0, Hold: 64, LoadMode: "ok"}
+		nextReq++
+		c := vAction{Op: "req", Req: nextReq, Model: 0, NumCtx: 8, NumGPU: -1, KeepAliveUs: kit.Pick(r, []int{0, 1000}), Hold: 8, LoadMode: "ok"}
+		nextReq++
+		d := vAction{Op: "req", Req: nextReq, Model: 1, NumCtx: 8, NumGPU: -1, KeepAliveUs: 1000, Hold: 8, LoadMode: "ok"}
+		nextReq++
+		for i := range h.MockPlans {
+			h.MockPlans[i].PingFail = []int{1}
+			h.MockPlans[i].PingDelay = kit.Pick(r, []int{0, 0, 100})
+		}
+		h.MaxLoaded = kit.Pick(r, []int{0, 2, 3})
+		h.NumParallel = kit.Pick(r, []int{2, 4})
+		h.Clients = [][]vAction{
+			{a},
+			{{Op: "sleep", SleepUs: kit.Pick(r, []int{200, 500})}, b},
+			{{Op: "sleep", SleepUs: kit.Pick(r, []int{400, 2500})}, c},
+			{{Op: "sleep", SleepUs: kit.Pick(r, []int{1000, 6000})}, d},
 		}
 		h.NReq = nextReq - 1
 		return h
